@@ -14,7 +14,8 @@ def _descs():
     return [RecordDescriptor("c04/rec", [("varint", "n"), ("string", "s")]),
             RecordDescriptor("c04/rec", [("string", "s"), ("varint", "n"), ("uint16", "p")]),
             RecordDescriptor("c04/other", [("bytes", "b"), ("datetime", "ts"), ("string[]", "l")]),
-            RecordDescriptor("c04/nest", [("record", "r"), ("varint", "k")])]
+            RecordDescriptor("c04/nest", [("record", "r"), ("varint", "k")]),
+            RecordDescriptor("c04/marker", [])]
 
 
 def _obs(r):
@@ -36,8 +37,10 @@ def _gen_records(rng, n):
     D = _descs()
     out = []
     for i in range(n):
-        k = rng.randrange(4)
-        if k == 0:
+        k = rng.randrange(5)
+        if k == 4:
+            out.append(D[4](_source=rng.choice([None, "m"])))
+        elif k == 0:
             out.append(D[0](n=rng.choice([0, 1, -1, 2**70, -(2**64), rng.randrange(-1000, 1000)]), s=rng.choice(["", "a", "é" * 40, "x" * 300, "\udc80"])))
         elif k == 1:
             out.append(D[1](s="p", n=i, p=rng.randrange(65536)))
@@ -70,8 +73,25 @@ def _write_stream(records):
     return data, ends
 
 
+class _ShortPeek(io.BytesIO):
+    """A binary file object whose peek() behaves like io.BufferedReader / GzipFile at an unlucky buffer position: behind the start of the file it
+    returns a single byte ("the number of bytes returned may be less or more than requested"), at the start as many as asked for."""
+
+    def peek(self, n=0):
+        pos = self.tell()
+        return self.getvalue()[pos:pos + (max(n, 1) if pos == 0 else 1)]
+
+
 def _read_all(fp):
-    """(list of observations yielded, how it ended)"""
+    """(list of observations yielded, how it ended); a BytesIO is read a second time through a file object with a short peek(): same outcome required"""
+    if type(fp) is io.BytesIO:
+        first = _read_all_(fp)
+        second = _read_all_(_ShortPeek(fp.getvalue()))
+        return first if first == second else (second[0], second[1] + " (through a file object whose peek() returns one byte)")
+    return _read_all_(fp)
+
+
+def _read_all_(fp):
     from flow.record.stream import RecordStreamReader
 
     out = []
@@ -87,9 +107,14 @@ def _read_all(fp):
     return out, "end"
 
 
-def c04_roundtrip(x=0, s=""):
+def c04_roundtrip(x=0, s="", marker=False):
     D = _descs()[0]
-    r = D(n=x, s=s)
+    if marker:
+        from flow.record import RecordDescriptor
+
+        r = RecordDescriptor("c04/marker", [])(_source=s)
+    else:
+        r = D(n=x, s=s)
     try:
         data, ends = _write_stream([r])
     except Exception as e:
